@@ -14,6 +14,8 @@ over the w_i and the values - `np.where(w == 0, a, b)` picks its branch, a zero 
 
 from __future__ import annotations
 
+import ast
+
 import itertools
 from fractions import Fraction
 from typing import Any
@@ -134,6 +136,15 @@ def to_bool(t: Any, zero: set[str]) -> bool:
     if isinstance(t, App) and t.fn in ("binop:BitAnd", "np.logical_and", "binop:BitOr", "np.logical_or") and len(t.args) == 2:
         x, y = to_bool(t.args[0], zero), to_bool(t.args[1], zero)
         return (x and y) if t.fn in ("binop:BitAnd", "np.logical_and") else (x or y)
+    if isinstance(t, App) and t.fn in ("is_close", "np.isclose") and len(t.args) >= 2:
+        # a comparison within the library's tolerance: true when the two are equal; when they differ (generic degrees: by any amount, small ones included) it may
+        # come out either way - the formula must give the specified value both times (CLOSE[0] says which way this evaluation takes it)
+        CLOSE[1] = True
+        try:
+            d = to_rat(t.args[0], zero) - to_rat(t.args[1], zero)
+        except IsNaN:
+            return False
+        return True if d.is_zero() else CLOSE[0]
     if isinstance(t, (Sym, App, int, float)) and not isinstance(t, bool):
         try:
             return not to_rat(t, zero).is_zero()  # the truth value of a number
@@ -146,6 +157,9 @@ def to_bool(t: Any, zero: set[str]) -> bool:
         except IsNaN:
             return True
     raise Unknown(f"`{t!r:.60}` as a condition in the weighted formula")
+
+
+CLOSE = [False, False]  # [how a tolerance test on different values comes out in this evaluation, whether one was met]
 
 
 def weighted_semantics(check: Check, rule: str = "W-sem") -> None:
@@ -200,7 +214,17 @@ def weighted_semantics(check: Check, rule: str = "W-sem") -> None:
                                   "Term": MObj("class", {"tsukamoto": MObj("function", {"__name__": "tsukamoto"}), "membership": MObj("function", {"__name__": "membership"})}),
                                   "scalar": lambda ex_, e, args, kw: App("np.asarray", (freeze(args[0]),)), "array": lambda ex_, e, args, kw: App("np.asarray", (freeze(args[0]),)),
                                   "nan": float("nan"), "inf": float("inf"),  # scalar(x) is a numpy number: dividing it by zero is nan / inf, not an exception
-                                  "Scalar": Opaque("type")}
+                                  "Scalar": Opaque("type"),
+                                  "Op": MObj("class", {"is_close": lambda ex_, e, args, kw: App("is_close", (freeze(args[0]), freeze(args[1])))}),
+                                  "Operation": MObj("class", {"is_close": lambda ex_, e, args, kw: App("is_close", (freeze(args[0]), freeze(args[1])))})}
+                    # class-level constants of the defuzzifier (`undefined = nan`) are attributes of the model object too
+                    for k_cls in reversed(fn.cls.mro or [fn.cls]):
+                        for an, av in k_cls.class_attrs.items():
+                            if an not in me.fields and not an.startswith("__") and not isinstance(av, (ast.FunctionDef, ast.ClassDef, ast.Lambda)):
+                                try:
+                                    me.fields[an] = ex.ev(av, {})
+                                except (Unknown, Internal, Raised):
+                                    pass
                     try:
                         got_: Any = None
                         try:
@@ -230,12 +254,25 @@ def weighted_semantics(check: Check, rule: str = "W-sem") -> None:
                         num = num + Rat.sym(f"w{i}") * Rat.sym(App(zname, (f"t{i}", Sym(f"w{i}"))))
                         den = den + Rat.sym(f"w{i}")
                     want: Rat | None = None if not live else (num / den if cname == "WeightedAverage" else num)
+                    CLOSE[0], CLOSE[1] = False, False
                     try:
                         val: Rat | None = to_rat(freeze(got), zero)
                     except IsNaN:
                         val = None
                     except Undefined:
                         val = None
+                    if CLOSE[1]:  # the result went through a tolerance test: once more with the test on different values coming out true
+                        CLOSE[0] = True
+                        try:
+                            val2: Rat | None = to_rat(freeze(got), zero)
+                        except (IsNaN, Undefined):
+                            val2 = None
+                        CLOSE[0] = False
+                        differs = (val2 is None) != (want is None) or (val2 is not None and want is not None and not val2.equals(want))
+                        if differs:
+                            bad.setdefault("formula" if live else "nan", f"{what}, zero degrees {sorted(zero) or 'none'}: when a comparison within the library's tolerance (is_close) of two "
+                                           f"different totals comes out true - degrees that are small but not zero - the result is "
+                                           f"{'NaN' if val2 is None else '`' + val2.show(_name) + '`'}, specified {'NaN' if want is None else '`' + want.show(_name) + '`'}")
                     if (val is None) != (want is None):
                         key = "nan"
                         bad.setdefault(key, f"{what}, zero degrees {sorted(zero) or 'none'}: the result is " + ("NaN" if val is None else "a number")
